@@ -109,6 +109,7 @@ type OpRec struct {
 	Op       SrvOp
 	Label    string
 	Inv, Ret uint64
+	Pub      uint64 // sequence number right after the new generation was published
 	Err      error
 	Gen      int // generation published for this reload
 	Path     string
@@ -340,7 +341,7 @@ func runSrv(t *testing.T, sc *SrvScenario, keep bool, res *core.Result, hooks *s
 				}
 				rec := &OpRec{Idx: i, Op: o, Label: o.Label(sc.TimeoutMs)}
 				h.Ops = append(h.Ops, rec)
-				m.Context = rec.Label
+				m.Context = fmt.Sprintf("%d:%s", i, rec.Label)
 				switch o.Kind {
 				case "jump":
 					s.Sleep(time.Duration(o.JumpS) * time.Second)
@@ -408,6 +409,7 @@ func runSrv(t *testing.T, sc *SrvScenario, keep bool, res *core.Result, hooks *s
 					res.HarnessErr = fmt.Sprintf("publish for op %d (%s): %v", i, rec.Label, perr)
 					return
 				}
+				rec.Pub = s.Seq()
 				plan := mon.ReloadPlan{Fail: o.Fault == "inject"}
 				if o.After {
 					plan.DelayAfter = time.Duration(o.DelayMs) * time.Millisecond
